@@ -614,9 +614,10 @@ def readNumeric (cell : Str) : Option Term :=
     else if c = '-' then (classifyUnsigned u).map (fun d => .typed cell d)
     else (classifyUnsigned cell).map (fun d => .typed cell d)
 
-/-- the escapes admitted by STRING_LITERAL1 (`'`) / STRING_LITERAL2 (`"`) and `decodeUnicodeEscape` -/
-def unescChar (q e : Char) : Option Char :=
-  if e = q then some q
+/-- ECHAR of `tsvresults._ESCAPE_re`, decoded by `compat._string_escape_map` -/
+def unescChar (e : Char) : Option Char :=
+  if e = '"' then some '"'
+  else if e = '\'' then some '\''
   else if e = 'n' then some '\n'
   else if e = 't' then some '\t'
   else if e = 'b' then some '\x08'
@@ -625,7 +626,25 @@ def unescChar (q e : Char) : Option Char :=
   else if e = '\\' then some '\\'
   else none
 
-/-- the body of a quoted string up to its closing quote: decoded value and what follows -/
+def hexVal (c : Char) : Option Nat :=
+  if isDigit c then some (c.toNat - 48)
+  else if inR c 65 70 then some (c.toNat - 55)
+  else if inR c 97 102 then some (c.toNat - 87)
+  else none
+
+/-- `int(digits, 16)` on `[0-9A-Fa-f]*` -/
+def hexNum (acc : Nat) : Str → Option Nat
+  | [] => some acc
+  | c :: r =>
+    match hexVal c with
+    | some d => hexNum (acc * 16 + d) r
+    | none => none
+
+/-- `chr(n)`; a code point that is not a Unicode scalar value is outside the model -/
+def chrOf (n : Nat) : Option Char := if n.isValidChar then some (Char.ofNat n) else none
+
+/-- the body of a quoted string up to its closing quote (`STRING_LITERAL1/2` of tsvresults.py, then
+    `decodeUnicodeEscape`): decoded value and what follows -/
 def scanStr (q : Char) : Str → Option (Str × Str)
   | [] => none
   | c :: r =>
@@ -634,9 +653,24 @@ def scanStr (q : Char) : Str → Option (Str × Str)
       match r with
       | [] => none
       | e :: r' =>
-        match unescChar q e, scanStr q r' with
-        | some d, some (s, rest) => some (d :: s, rest)
-        | _, _ => none
+        if e = 'u' then
+          match r' with
+          | a :: b :: c :: d :: r'' =>
+            match (hexNum 0 [a, b, c, d]).bind chrOf, scanStr q r'' with
+            | some x, some (s, rest) => some (x :: s, rest)
+            | _, _ => none
+          | _ => none
+        else if e = 'U' then
+          match r' with
+          | a :: b :: c :: d :: a' :: b' :: c' :: d' :: r'' =>
+            match (hexNum 0 [a, b, c, d, a', b', c', d']).bind chrOf, scanStr q r'' with
+            | some x, some (s, rest) => some (x :: s, rest)
+            | _, _ => none
+          | _ => none
+        else
+          match unescChar e, scanStr q r' with
+          | some d, some (s, rest) => some (d :: s, rest)
+          | _, _ => none
     else if c = '\n' || c = '\r' then none
     else
       match scanStr q r with
